@@ -755,6 +755,25 @@ def m5(ck: Check) -> None:
                 k0 = None
             if text(e.args[0]) == var or k0 == var:
                 return logic.B("MIN")
+        if isinstance(e, ast.Compare) and len(e.ops) == 1 and isinstance(e.ops[0], (ast.In, ast.NotIn)) and text(e.left) == var:
+            # membership in the diagram's list of minimal trap spaces, taken before the loop (summary() does not grow the diagram)
+            c_ = e.comparators[0]
+            try:
+                at_ = fm.cfgn(e)
+            except AnalysisError:
+                at_ = fm.cfg.loop_header[loop]
+            for _ in range(3):
+                while isinstance(c_, ast.Call) and callee_name(c_) in ("set", "frozenset", "list", "sorted", "tuple") and len(c_.args) == 1:
+                    c_ = c_.args[0]
+                if isinstance(c_, ast.Name):
+                    sd2 = fm.single_def(c_.id, at_)
+                    if sd2 is None:
+                        break
+                    c_, at_ = sd2[1], sd2[0]
+            if isinstance(c_, ast.Call) and callee_name(c_) == "minimal_trap_spaces" and isinstance(c_.func, ast.Attribute) \
+                    and text(c_.func.value) == "self" and not c_.args:
+                a = logic.B("MIN")
+                return a if isinstance(e.ops[0], ast.In) else logic.Not(a)
         return None
 
     pmin = fm.pc(fm.cfgn(lab["min"]), atomize=atomize)
